@@ -1980,7 +1980,7 @@ class Evaluator:
                     itv = None
                 if isinstance(itv, Tup) and len(itv.items) <= 40 and all(self._is_literal(x_, st) for x_ in itv.items):
                     return self.unroll_for(s, list(itv.items), 0, rest, st, ctx)
-            if isinstance(s, ast.While) and getattr(self, 'unroll', False) and not s.orelse:
+            if isinstance(s, ast.While) and getattr(self, 'unroll', False):
                 # opt-in: a while loop whose condition is decided at every pass (concrete counters) is run pass by pass
                 t_w = self.unroll_while(s, rest, st, ctx, 0)
                 if t_w is not None:
@@ -2170,7 +2170,7 @@ class Evaluator:
         if depth > 200:
             raise Undecided(f'while at line {loop.lineno}: more than 200 passes')
         if not tr:
-            return self.exec_block(list(rest), st, ctx)
+            return self.exec_block(list(loop.orelse) + list(rest), st, ctx)       # `else` runs when the condition fails
         tree = self.exec_block(list(loop.body), st, ctx)
 
         def cont(t):
@@ -2179,7 +2179,7 @@ class Evaluator:
             if t.kind in ('fall', 'continue'):
                 return self.unroll_while(loop, rest, t.state, ctx, depth + 1)
             if t.kind == 'break':
-                return self.exec_block(list(rest), t.state, ctx)
+                return self.exec_block(list(rest), t.state, ctx)                  # ... not after a break
             return t
         return cont(tree)
 
